@@ -232,9 +232,10 @@ theorem node_step (s : St) (sent : List (Cidr × RouteUpdate)) (n0 : Nat) (new :
           have hrefs : ri.refs = [] := by have := ht'.2.2; simpa [St.view, hget, strip] using this
           have hblock : ri.block = some n' := by have := ht'.1; simpa [St.view, hget, strip] using this
           have hcond : (n0 == s.me && cidrOf old != cidrOf new) = true := by simp [hme, hcid]
+          have hhosts : ri.hosts = [] := by have := ht'.2.1; simpa [St.view, hget, strip] using this
           have hflip : subnetFlip s old new ri = (inSub old oi != inSub new oi) := by
             unfold subnetFlip visitNode
-            simp only [hrefs, hblock]
+            simp only [hrefs, hhosts, hblock]
             have : (n' == s.me) = false := by
               simp only [beq_eq_false_iff_ne, ne_eq]; intro e; exact hnn (hme.trans e.symm)
             simp only [this, Bool.false_eq_true, if_false, hoi]
